@@ -510,6 +510,16 @@ def run_model(case, R):
         got = [float(v) for v in dst.total_generation(t)]
         R.check(len(got) == len(tot_before[t]) and all(abs(x - y) <= 1e-12 * max(abs(x), abs(y)) for x, y in zip(got, tot_before[t])),
                 'model:total-generation', lambda: 'total %s generation per block differs: sum %r expected %r' % (t, sum(got), sum(tot_before[t])))
+    # the same target object then receives a model without generators (the natural-state twin of a production model):
+    # every generator the target now has is one of the source's - none
+    if case.get('then_empty', len(case['gens']) % 2 == 0) and not R.findings and before:
+        R.label('model:then-a-source-without-generators-into-the-same-target')
+        src.clear_generators()
+        with R.lib('data.transfer_from-empty'):
+            dst.transfer_from(src, g, g2, top_generator=list(top), bottom_generator=list(bot),
+                              rename_generators=case['rename'], preserve_generation_totals=case['preserve'])
+        R.check(dst.num_generators == 0 and not dst.generator, 'model:generators-of-an-earlier-transfer-kept',
+                'after transferring a model without generators the target still holds %d generators' % dst.num_generators)
 
 
 def run_case(case, R):
